@@ -66,6 +66,9 @@ func traverse(context Context, matchingNode *CandidateNode, operation *Operation
 
 	case AliasNode:
 		log.Debug("its an alias!")
+		if matchingNode.Alias == nil {
+			return list.New(), nil
+		}
 		matchingNode = matchingNode.Alias
 		return traverse(context, matchingNode, operation)
 	default:
@@ -143,6 +146,10 @@ func traverseArrayIndices(context Context, matchingNode *CandidateNode, indicesT
 	}
 
 	if matchingNode.Kind == AliasNode {
+		if matchingNode.Alias == nil {
+			// an alias node that points nowhere (alias= given something that is not an anchor name)
+			return list.New(), nil
+		}
 		matchingNode = matchingNode.Alias
 		return traverseArrayIndices(context, matchingNode, indicesToTraverse, prefs)
 	} else if matchingNode.Kind == SequenceNode {
